@@ -12,13 +12,13 @@ import (
 // exported API by its types.Object, unexported helpers by what they call.
 
 type Scope struct {
-	P        *Prog
-	Consume  map[*ssa.Function]bool // reachable from the message-consuming entry points (module edges only)
-	Respond  map[*ssa.Function]bool // IdP request->response path (consumes the request and registered metadata)
-	Decrypt  map[*ssa.Function]bool // reachable from xmlenc.Decrypt and the SP's decrypt step
-	Schema   map[*types.Named]bool  // struct types reachable from xml.Unmarshal targets
-	Entries  []*ssa.Function
-	cgKind   string
+	P       *Prog
+	Consume map[*ssa.Function]bool // reachable from the message-consuming entry points (module edges only)
+	Respond map[*ssa.Function]bool // IdP request->response path (consumes the request and registered metadata)
+	Decrypt map[*ssa.Function]bool // reachable from xmlenc.Decrypt and the SP's decrypt step
+	Schema  map[*types.Named]bool  // struct types reachable from xml.Unmarshal targets
+	Entries []*ssa.Function
+	cgKind  string
 }
 
 func cgKindFor(tier string) string {
